@@ -694,8 +694,19 @@ pub fn replay_file(fams: &[&dyn Family], path: &Path) -> i32 {
         return if rep.violations.is_empty() { 0 } else { 1 };
     }
     let got = fam.replay(rp);
+    // replay files written before panic locations were made checkout-independent carry absolute paths
+    let norm_class = |c: &str| -> String {
+        match c.strip_prefix("panic@") {
+            Some(loc) => match loc.rsplit_once(':') {
+                Some((file, line)) => format!("panic@{}:{}", simcore::sim::norm_loc(file), line),
+                None => c.to_string(),
+            },
+            None => c.to_string(),
+        }
+    };
+    let want_class = want["class"].as_str().map(norm_class);
     let same = got.iter().find(|g| {
-        Some(g.oracle.as_str()) == want["oracle"].as_str() && Some(g.class.as_str()) == want["class"].as_str()
+        Some(g.oracle.as_str()) == want["oracle"].as_str() && Some(norm_class(&g.class)) == want_class
     });
     match same {
         Some(g) => {
